@@ -33,6 +33,12 @@ CLAIMED = {
             "diagnostic ranges and codes are z3 variables, and the statement's clauses (covers its scope, nothing outside it, only listed codes) are discharged for all of them.",
             "Leaf contracts for LuaDocument::get_line/get_line_range/get_offset(.,0) and rowan TextRange ops (stated in evidence); 5-line table, single-line diagnostics; parser attachment of comments is outside.",
             "DESIGN.md §2 C19"),
+    "C24": ("MIR-to-SMT symbolic execution (z3) of the compiled async state machines of the request dispatcher, the per-method task closures, the task wrapper and message routing; native replay by piping JSON-RPC sessions into the real emmylua_ls",
+            "Every path from the start state of each state machine (all method arms, params that deserialize or not, cancelled or not, handler Some/None) is executed symbolically and must contain "
+            "exactly one response action for the request's id; deviations are confirmed against the real server with three scripted stdio sessions (malformed/unknown/cancel, cancel during "
+            "initialization, cancel in flight).",
+            "Awaits complete; spawned futures run; lsp_server::Request::extract and channel send follow their contracts. Handler panics, the initialize handshake and scheduling are outside.",
+            "DESIGN.md §2 C24"),
 }
 
 NA = {}
@@ -81,7 +87,7 @@ def main():
         "engines": [
             {"name": "K", "path": "/verif/lib/kanirun.py", "serves_properties": sorted(CLAIMED),
              "kind_free_text": "Kani 0.68 proof harnesses (/verif/kani/*) over the real crates, CBMC 6.11 + cadical, unwinding assertions on, native replay"},
-            {"name": "M", "path": "/verif/mirsmt", "serves_properties": ["C19", "C20", "C36"],
+            {"name": "M", "path": "/verif/mirsmt", "serves_properties": ["C19", "C20", "C24", "C36"],
              "kind_free_text": "symbolic execution of rustc's MIR of the real functions into SMT (z3, cross-checked with cvc5)"},
         ],
         "checks": checks,
